@@ -95,7 +95,7 @@ func init() {
 				es[i] = ex.nondet(fmt.Sprintf("%s[%d]", name, i), 8)
 			}
 			l := ex.nondet(name+".len", 64)
-			st.pc = And(st.pc, Ule(l, i64(int64(n))))
+			st.assume(Ule(l, i64(int64(n))))
 			return &SliceV{Base: ex.newArray(st, es), Off: i64(0), Len: l, Cap: i64(int64(n))}
 		},
 		"vsNondetString": func(ex *Exec, st *State, fn *ssa.Function, args []Value, site ssa.Instruction) Value {
@@ -118,21 +118,21 @@ func init() {
 				es[i] = ex.nondet(fmt.Sprintf("%s[%d]", name, i), 8)
 			}
 			l := ex.nondet(name+".len", 64)
-			st.pc = And(st.pc, Ule(l, i64(int64(n))))
+			st.assume(Ule(l, i64(int64(n))))
 			return &SliceV{Base: ex.newArray(st, es), Off: i64(0), Len: l, Cap: l}
 		},
 		"vsAssume": func(ex *Exec, st *State, fn *ssa.Function, args []Value, site ssa.Instruction) Value {
-			st.pc = And(st.pc, args[0].(*Term))
+			st.assume(args[0].(*Term))
 			return nil
 		},
 		"vsAssert": func(ex *Exec, st *State, fn *ssa.Function, args []Value, site ssa.Instruction) Value {
 			id := ex.argString(st, args[1])
-			ex.asserts = append(ex.asserts, Obligation{ID: id, PC: st.pc, Cond: args[0].(*Term), Pos: ex.pos(site), Case: ex.curCase})
+			ex.asserts = append(ex.asserts, Obligation{ID: id, PC: st.pcTerm(), Cond: args[0].(*Term), Pos: ex.pos(site), Case: ex.curCase})
 			return nil
 		},
 		"vsReach": func(ex *Exec, st *State, fn *ssa.Function, args []Value, site ssa.Instruction) Value {
 			id := ex.argString(st, args[0])
-			ex.reaches = append(ex.reaches, Obligation{ID: id, PC: st.pc, Cond: True, Pos: ex.pos(site), Case: ex.curCase})
+			ex.reaches = append(ex.reaches, Obligation{ID: id, PC: st.pcTerm(), Cond: True, Pos: ex.pos(site), Case: ex.curCase})
 			return nil
 		},
 		"vsFork": func(ex *Exec, st *State, fn *ssa.Function, args []Value, site ssa.Instruction) Value {
@@ -255,7 +255,7 @@ func init() {
 	intrinsics["(*sync.WaitGroup).Add"] = nop
 	intrinsics["(*sync.WaitGroup).Done"] = nop
 	intrinsics["(*sync.WaitGroup).Wait"] = func(ex *Exec, st *State, fn *ssa.Function, args []Value, site ssa.Instruction) Value {
-		ex.waits = append(ex.waits, Event{Kind: "WaitGroup.Wait", PC: st.pc, Pos: ex.pos(site), Case: ex.curCase, Msg: ex.heldLocks(st)})
+		ex.waits = append(ex.waits, Event{Kind: "WaitGroup.Wait", PC: st.pcTerm(), Pos: ex.pos(site), Case: ex.curCase, Msg: ex.heldLocks(st)})
 		return nil
 	}
 	intrinsics["(*sync.Once).Do"] = func(ex *Exec, st *State, fn *ssa.Function, args []Value, site ssa.Instruction) Value {
@@ -531,7 +531,7 @@ func (ex *Exec) lockOp(st *State, p Value, site ssa.Instruction, op string) {
 		r = ex.load(st, rp).(*Term)
 		readers = Not(Eq(r, BV(32, 0)))
 	}
-	ex.lockEvents = append(ex.lockEvents, LockEvent{Op: op, Lock: ex.locks[key].name, Pos: ex.pos(site), PC: st.pc, Held: ex.heldLocks(st), Case: ex.curCase})
+	ex.lockEvents = append(ex.lockEvents, LockEvent{Op: op, Lock: ex.locks[key].name, Pos: ex.pos(site), PC: st.pcTerm(), Held: ex.heldLocks(st), Case: ex.curCase})
 	switch op {
 	case "Lock":
 		ex.blockIf(st, Or(held, readers), "self-deadlock: Lock of "+name+" while already held by this thread", site)
